@@ -201,6 +201,8 @@ def rule(program, rep, rule_id, modules, floor=1, domains=None):
     stale.rule(program, rep, rule_id, modules)
     from . import noeffect
     noeffect.rule(program, rep, rule_id, modules)
+    from . import slips
+    slips.rule(program, rep, rule_id, modules)
     # one mutable object filed under every key / position and then changed
     # through one entry (dict.fromkeys(keys, []), [[]] * n)
     from .link import shared_mutable_values
@@ -219,7 +221,7 @@ def rule(program, rep, rule_id, modules, floor=1, domains=None):
                         "SAME object, and %s changes an entry in place - "
                         "the change shows through every entry" % (
                             q, nm_, ast.unparse(v_),
-                            ast.unparse(c_)[:60]), v_)
+                            ast.unparse(c_)[:60]), v_, positive=True)
     res = check(program, modules)
     for m in modules:
         if m in program.modules:
@@ -232,7 +234,7 @@ def rule(program, rep, rule_id, modules, floor=1, domains=None):
         rep.bad(rule_id, "%s:%d" % (mname, c.lineno),
                 "%s %s" % (kind, formal),
                 text + (": the two values are exchanged / the wrong one is "
-                        "used" if kind == "swap" else ""), c)
+                        "used" if kind == "swap" else ""), c, positive=True)
     rep.ok(rule_id, ",".join(sorted(set(r[1] for r in res))) or "-",
            "%d call(s) of package functions pass every name-sharing "
            "argument to the parameter of that name and forward the "
